@@ -159,9 +159,10 @@ fn render(w: &[usize], invalid: bool) -> BStr {
     BStr(w.iter().flat_map(|i| SYMS[if invalid || *i < VALID_SYMS { *i } else { *i - VALID_SYMS }].iter().copied()).collect())
 }
 
-/// long words (100-300 symbols): ratios that differ only far behind the decimal point
+/// long words (100-300 symbols): ratios that differ only far behind the decimal point; a few rare
+/// symbols that occur once on both sides and move
 fn long_strat() -> BoxedStrategy<Case> {
-    (vec(0usize..3, 100..=300), vec(vec((0u8..3, any::<u16>(), 0usize..4), 1..=6), 2..=8), prop_oneof![Just(1usize), Just(2), Just(3), Just(usize::MAX)], 0usize..8, any::<bool>())
+    (vec(prop_oneof![24 => 0usize..3, 1 => 3usize..VALID_SYMS], 100..=300), vec(vec((0u8..4, any::<u16>(), 0usize..4), 1..=6), 2..=8), prop_oneof![Just(1usize), Just(2), Just(3), Just(usize::MAX)], 0usize..8, any::<bool>())
         .prop_map(|(w, cand_edits, n, pick, bytes)| {
             let cands: Vec<BStr> = cand_edits
                 .into_iter()
@@ -174,6 +175,16 @@ fn long_strat() -> BoxedStrategy<Case> {
                                 v.remove(crate::gen::pos(at, len - 1));
                             }
                             1 => v.insert(crate::gen::pos(at, len), sym),
+                            // a symbol (often one that is rare in the word) moves to the front or the back
+                            3 if len > 0 => {
+                                let p = v.iter().position(|x| *x >= 3).filter(|_| at % 4 != 0).unwrap_or(crate::gen::pos(at, len - 1));
+                                let x = v.remove(p);
+                                if sym % 2 == 0 {
+                                    v.insert(0, x);
+                                } else {
+                                    v.push(x);
+                                }
+                            }
                             _ if len > 0 => {
                                 let p = crate::gen::pos(at, len - 1);
                                 v[p] = sym;
